@@ -516,7 +516,7 @@ def forward_taint(fn, seeds, stop=None):
     return tainted
 
 
-def provenance(fn, start, pass_through=PASS_THROUGH, follow_all_call_args=False, stop_calls=None, max_nodes=4000):
+def provenance(fn, start, pass_through=PASS_THROUGH, follow_all_call_args=False, stop_calls=None, max_nodes=4000, skip_blocks=None):
     """Flow-insensitive backward slice from operand/place/local `start` inside `fn`.
     Follows copies, moves, refs, casts, aggregates, binops, field stores into the same base local, and
     calls whose short name is in `pass_through` (through every place argument). Other calls are recorded
@@ -558,6 +558,8 @@ def provenance(fn, start, pass_through=PASS_THROUGH, follow_all_call_args=False,
         if fn.is_param(l):
             org.params.add(l)
         for (bb, idx, kind, node) in fn.defs.get(l, []):
+            if skip_blocks is not None and bb in skip_blocks:
+                continue
             if kind == 'stmt':
                 r = node['r']
                 rv = r['rv']
@@ -586,6 +588,44 @@ def provenance(fn, start, pass_through=PASS_THROUGH, follow_all_call_args=False,
                         for a in c.args:
                             push_op(a)
     return org
+
+
+def expr_leaves(fn, operand, max_nodes=200):
+    """walk the expression that computes `operand`, through compiler temporaries only: stops at user variables and
+    parameters. Returns (user_locals, consts, binop_names, calls)."""
+    users, consts, ops, calls = set(), [], [], []
+    work = [operand]
+    seen = set()
+    n = 0
+    while work and n < max_nodes:
+        o = work.pop()
+        n += 1
+        if not is_place(o):
+            if o.get('k') == 'const':
+                consts.append(o.get('v', ''))
+            continue
+        l = o['pl']['l']
+        if l in fn.user or fn.is_param(l):
+            users.add(l)
+            continue
+        if l in seen:
+            continue
+        seen.add(l)
+        for (bb, idx, kind, node) in fn.defs.get(l, []):
+            if kind == 'stmt':
+                r = node['r']
+                if r['rv'] == 'binop':
+                    ops.append(r['op'])
+                for x in r.get('ops', []):
+                    work.append(x)
+                if 'pl' in r:
+                    work.append({'k': 'copy', 'pl': r['pl']})
+            else:
+                c = fn.call_at[bb]
+                calls.append(c)
+                for x in c.args:
+                    work.append(x)
+    return users, consts, ops, calls
 
 
 def deep_origins(prog, fn, start, depth=3, _seen=None, follow_all=True):
